@@ -524,7 +524,12 @@ class BusExternalAuthenticator :
 
     def getUserName(self):
         import pwd
-        return pwd.getpwuid(self.creds[1]).pw_name
+        try:
+            return pwd.getpwuid(self.creds[1]).pw_name
+        except KeyError:
+            # a uid without an entry in the user database (a peer in a
+            # container) is a user all the same
+            return str(self.creds[1])
 
     def cancel(self):
         pass
